@@ -84,3 +84,64 @@ PROPS['C19'] = {
     'assumptions': [A_TOOLS, A_DEBUG],
     'explanation': 'All 11 variants (exhaustive match => a new variant is a compile error in the harness) and every byte string of length 0..=64 with arbitrary contents.',
 }
+
+A_REGEX = 'A-regex-engine: the regex crate implements the pattern it is given (its pattern is proved equivalent to the documented one by regexeq on every run; the engine itself is exercised by the bounded native differential run)'
+A_CHUNKS = 'A-chunks: <[u8]>::chunks(2).map(f).collect::<Vec<_>>() applies f to consecutive 2-byte chunks in order (std contract; bounded Kani check chunks_map_collect_pipeline for 0..=3 pairs)'
+A_CAP = 'A-capacity: Vec::with_capacity(n) allocates exactly n (the three assert_eq!(len, capacity) self-checks are dropped from the Verus text and checked by Kani at data lengths {1,2,16} only)'
+A_SPEC = 'A-transcription: the spec functions exist in three transcriptions (Verus contracts/codec_spec.rs, Kani harness modules, witness/src/refspec.rs) that correspond by inspection'
+
+FRAME_FNS = ['flipdot_core::frame::{Data::try_new, Frame::new, Frame::payload, Frame::to_bytes, Frame::to_bytes_with_newline, Frame::from_bytes} (Verus, extracted; rewrites listed per function in verus_units)',
+             'flipdot_core::frame::checksum (Kani proof_for_contract: requires len <= 259, ensures == lrc)',
+             'flipdot_core::frame::parse_hex::<u8>, parse_hex::<u16> (Kani, every 2-/4-character hex string)']
+
+FRAME_VERUS_ENC = ['Data::try_new', 'Frame::new', 'Frame::payload', 'Frame::to_bytes', 'Frame::to_bytes_with_newline']
+FRAME_KANI_CONTRACTS = [H('checksum_contract', covers=0), H('parse_hex_u8_contract', covers=2), H('parse_hex_u16_contract', covers=2)]
+FRAME_KANI_BOUNDED = [
+    H('frame_capacity_asserts_len1', bounded='data length 1'),
+    H('frame_capacity_asserts_len2', bounded='data length 2'), H('frame_capacity_asserts_len16', bounded='data length 16'),
+    H('chunks_map_collect_pipeline', bounded='0..=3 hex pairs', covers=2),
+]
+
+PROPS['C01'] = {
+    'level': 'proof',
+    'verus': [{'tmpl': 'frame.rs.tmpl', 'obligations': FRAME_VERUS_ENC + ['Frame::from_bytes',
+               'lemma_roundtrip', 'lemma_roundtrip_nl', 'lemma_enc_format', 'lemma_sum_zero', 'lemma_enc_chars', 'lemma_pairs',
+               'lemma_nibbles', 'lemma_digit', 'lemma_addr', 'lemma_dec_strip', 'lemma_shape_groups', 'lemma_group_names',
+               'lemma_hex_num2', 'lemma_hex_num4', 'lemma_lrc_is_neg_sum']}],
+    'tools': [{'kind': 'regexeq'}, {'kind': 'witness', 'domains': ['frame-encode'], 'bound': 'sampled frames: 12 addresses x 12 types x 15 lengths x 3 patterns + 3000 random'}],
+    'kani': [{'package': 'flipdot-core', 'harnesses': FRAME_KANI_CONTRACTS + FRAME_KANI_BOUNDED}],
+    'functions': FRAME_FNS,
+    'assumptions': [A_USIZE, A_COW, A_INTO, A_REGEX, A_CHUNKS, A_CAP, A_SPEC, A_TOOLS, A_DEBUG,
+                    'owned vs borrowed data: contracts speak about the byte view of the Cow only (A-cow)',
+                    'Data has a Verus type invariant (len <= 255) checked at its only construction site Data::try_new; other construction sites would need the same proof'],
+    'explanation': 'C01 = to_bytes == enc (loop invariant over hex_pairs), to_bytes_with_newline == enc + CRLF, from_bytes == dec (contract D), Data type invariant, and the lemmas dec(enc(f)) == Ok(f), dec(enc(f)+CRLF) == Ok(f), lemma_enc_format (shape, upper case, big-endian address, bytes sum to 0 mod 256).',
+}
+
+PROPS['C03'] = {
+    'level': 'proof',
+    'verus': [{'tmpl': 'frame.rs.tmpl', 'obligations': ['Frame::from_bytes', 'Data::try_new', 'Frame::new', 'Frame::payload',
+               'lemma_reencode', 'lemma_shape_groups', 'lemma_group_names', 'lemma_hex_num2', 'lemma_hex_num4', 'lemma_payload_of_view',
+               'lemma_byte_nibbles', 'lemma_digit_of_val', 'lemma_pairs']}],
+    'tools': [{'kind': 'regexeq'}, {'kind': 'witness', 'domains': ['frame-decode'], 'bound': 'all strings of length <= 4 over a 12-symbol structural alphabet around 4 skeletons; single-fault mutations of 30 valid frames; long frames with >= 255 pairs; 20000 random strings'}],
+    'kani': [{'package': 'flipdot-core', 'harnesses': FRAME_KANI_CONTRACTS + [FRAME_KANI_BOUNDED[-1]]}],
+    'functions': FRAME_FNS,
+    'assumptions': [A_USIZE, A_COW, A_INTO, A_REGEX, A_CHUNKS, A_SPEC, A_TOOLS, A_DEBUG,
+                    'the data: field of the error values is not constrained by the contract (Vec<u8>: From<&[u8]> has no spec); C03 speaks of the counts and checksum values only'],
+    'explanation': 'C03 = contract D on the real from_bytes (result == dec(bytes) incl. precedence Invalid > Mismatch > BadChecksum and the reported counts/values; every unwrap/index/cast proved safe = totality), regexeq (pattern == documented language, groups at the documented offsets) and lemma_reencode.',
+}
+
+PROPS['C05'] = {
+    'level': 'proof',
+    'kani': [{'package': 'flipdot-core', 'harnesses': [
+        H('c05_message_frame_message_identity', covers=6),
+        H('c05_distinct_messages_distinct_frames', covers=2, tier='thorough'),
+    ] + FRAME_KANI_CONTRACTS}],
+    'verus': [{'tmpl': 'frame.rs.tmpl', 'obligations': FRAME_VERUS_ENC + ['Frame::from_bytes', 'lemma_roundtrip', 'lemma_roundtrip_nl',
+               'lemma_enc_chars', 'lemma_pairs', 'lemma_nibbles', 'lemma_digit', 'lemma_addr', 'lemma_dec_strip', 'lemma_shape_groups', 'lemma_group_names']}],
+    'tools': [{'kind': 'regexeq'}, {'kind': 'witness', 'domains': ['message'], 'bound': 'all 256 types x 256 first bytes x lengths {0,1,2,3,16,255} x 3 addresses; 5 addresses x every specific kind through the real wire codec'}],
+    'functions': MSG_FNS + FRAME_FNS,
+    'assumptions': [A_TOOLS, A_DEBUG, A_USIZE, A_COW, A_INTO, A_REGEX, A_CHUNKS, A_SPEC,
+                    'composition: message -> frame -> wire -> frame -> message is the composition of the Kani identity Message::from(Frame::from(m)) == m (all specific messages) with the Verus contracts to_bytes == enc, from_bytes == dec and the lemma dec(enc(f)) == Ok(f); the composition step itself is a two-line argument, not a mechanised obligation',
+                    'injectivity ("two different specific messages never share a wire encoding") is a corollary of the two left inverses; additionally checked directly by c05_distinct_messages_distinct_frames in the thorough tier'],
+    'explanation': 'Message leg: loop-free Kani harness over every specific message (10 kinds x any u16 x 13 states x 6 operations x data of length 0..=255). Wire leg: the C01 obligations.',
+}
